@@ -282,7 +282,7 @@ def z_execute(col, seed, history, judge_last=True):
             exhausted = not um.UrwidImage._ti_free_z_indexes and um.UrwidImage._ti_next_z_index >= 2**31
             try:
                 wcls = sub if len(op) > 1 and op[1] == "sub" else um.UrwidImage
-                w = wcls(L.image.KittyImage(pattern(6, 6)), "+L")
+                w = wcls(L.image.KittyImage(pattern(6, 6)), "+Lz5" if len(live) % 2 == 0 else "+L")
             except um.UrwidImageError as e:
                 if not exhausted and (last or not judge_last):
                     col.violation(dict(part="Z", clause="spurious-too-many"),
